@@ -343,6 +343,22 @@ func H_C08_legacy() {
 	vx.Assert("C08", d.GetClock() != nil && bytes.Equal(d.GetClock().GetID(), e.Clock.ID) && d.GetClock().GetTime() == e.Clock.Time, "legacy clock survives write/read")
 	h2, err := entry.ToMultihashWithIO(ctx, e, api, nil, io)
 	vx.Assert("C08", err == nil && h2.Equals(h), "the same legacy entry always encodes to the same identifier")
+	// the same block requested under the other form of its identifier (CIDv1/dag-pb of the same multihash, what a
+	// migrated log links to): block stores are keyed by multihash and hand the block out
+	if alt := vx.AltForm(h); !alt.Equals(h) {
+		dg := api.Dag().(*memDag)
+		if dg.alias == nil {
+			dg.alias = map[string]string{}
+		}
+		dg.alias[alt.String()] = h.String()
+		d2, err := entry.FromMultihashWithIO(ctx, api, alt, ids[0].Provider, io)
+		vx.Assert("C08", err == nil && d2 != nil, "reading the legacy entry back succeeds (other form of its identifier)")
+		if err == nil && d2 != nil {
+			vx.Assert("C08", d2.GetHash().Equals(alt), "the decoded legacy entry carries the identifier it was requested by (other form of its identifier)")
+			vx.Assert("C08", jsonSame(d2.GetPayload(), e.Payload) && sameCids(d2.GetNext(), e.Next) && d2.GetV() == 0, "legacy payload and predecessors survive write/read (other form of its identifier)")
+			vx.Cover("legacy-read-by-other-form")
+		}
+	}
 }
 
 // jsonSame: equality of two byte strings after encoding/json's coercion to valid UTF-8 (the legacy format stores
